@@ -1,9 +1,9 @@
 From Coq Require Import QArith List String Bool.
-From FV Require Import Base.Ser Base.Res C09.Model C09.Registry C10.Model C10.ModelSupports.
+From FV Require Import Base.Ser Base.Res C09.Model C09.Registry C10.Model C10.ModelSupports C10.ModelSortKey.
 Import ListNotations.
 Open Scope string_scope.
 Definition rounded_at (masters : list Q) (weights : list (list Q)) : list Q * list Q :=
   let d := getDeltasRounded masters weights in
   (map Qred d, map (fun row => Qred (at_master d row)) weights).
-Definition reg : registry := (C09.Registry.reg ++ [ ("rounded_at", run2 rounded_at); ("supports", run2 supports_entry); ("deltaWeights", run2 weights_entry) ])%list.
+Definition reg : registry := (C09.Registry.reg ++ [ ("rounded_at", run2 rounded_at); ("supports", run2 supports_entry); ("deltaWeights", run2 weights_entry); ("sort_locations", run1 sort_entry) ])%list.
 Definition fv_entry := dispatch reg.
